@@ -5,7 +5,7 @@
    [offset_ok n n_out off]  : 0 <= off and off + min <= max (the block fits);
    [pad_legal m n n_out off]: the padding lengths the docstring allows for mode m. *)
 From Coq Require Import ZArith Reals Lia Lra List Bool.
-From Verif Require Import Base.Num Base.Vec Base.VecR Lib.Axis C16.Syntax Gen.Padding C16.Model C16.ModelNd C16.ModelOp C16.Proofs.
+From Verif Require Import Base.Num Base.Vec Base.VecR Lib.Axis C16.Syntax Gen.Padding Gen.ResizeDiscr C16.Model C16.ModelNd C16.ModelOp C16.Proofs.
 Import ListNotations.
 Local Open Scope R_scope.
 
@@ -94,16 +94,15 @@ Theorem constant_padding_affine : forall (c : R) (x h : list R) (n_out : nat) (o
 Proof. exact const_affine. Qed.
 Print Assumptions constant_padding_affine.
 
-(* FULL STATEMENT, FALSE of the code as it stands (finding offset-out-of-range-accepted):
-   "an offset outside 0 .. |n_out - n| is rejected".  Python slice wrap-around and NumPy
-   length-1 broadcasting make the faithful model (and resize_array) return arrays:
-     resize_array([5], (4,), offset=-3)          -> [0, 5, 0, 0]
-     resize_array([1,2,3,4,5], (2,), offset=4)   -> [5, 5]
-   The theorems above are the partial statement: they hold under [offset_ok]. *)
-Theorem offset_range_checked_refuted :
-  (offset_ok 1 4 (-3) = false /\ resize1 PConstant Forward 0 true [5] 4 (-3) = Ok [0; 5; 0; 0]) /\
-  (offset_ok 5 2 4 = false /\ resize1 PConstant Forward 0 true [1; 2; 3; 4; 5] 2 4 = Ok [5; 5]).
-Proof. exact offset_range_refuted. Qed.
+(* T1: an offset outside 0 .. |n_out - n| is rejected (ValueError) for every mode,
+   direction and contents.  (Was finding offset-out-of-range-accepted, repaired by
+   675e308; the validation condition is regenerated into Gen.Padding.offset_invalid.) *)
+Theorem offset_out_of_range_is_rejected :
+  forall (m : pmode) (d : direction) (c : R) (cast : bool) (arr : list R) (n_out : nat) (off : Z),
+  length arr <> n_out -> offset_ok (length arr) n_out off = false ->
+  resize1 m d c cast arr n_out off = ValueErr.
+Proof. exact offset_out_of_range_rejected. Qed.
+Print Assumptions offset_out_of_range_is_rejected.
 
 (* ---- N-d (flat C-order arrays).  [sep_loop m d c cast outer ishape oshape offs]
    applies the 1-d resize along axis 0, 1, ... ([Lib.Axis.along]); [sep_rev_loop]
@@ -166,21 +165,22 @@ Theorem resize_result_length :
 Proof. exact resize1_length. Qed.
 Print Assumptions resize_result_length.
 
-(* T1 (operator range, per axis).  [resize_axis fixed a n_new off bl br] is the
+(* T1 (operator range, per axis).  [resize_axis a n_new off bl br] is the
    range axis built by _resize_discr from the domain axis a (interval, cells,
    nodes_on_bdry flags); [num_lr] the numbers of cells added left/right;
    [axis_valid]: n >= 1, and n >= 2 when a node lies on the boundary.
    With the same boundary convention the range has the SAME cell side and its
    interval is the domain interval enlarged by exactly nl cells on the left and
-   nr on the right, nl + nr = n_new - n.  (Holds for both sign conventions
-   [fixed]; for an extension nl = offset, nr = n_new - n - offset.) *)
+   nr on the right, nl + nr = n_new - n.  ([num_lr], [new_minpt], [new_maxpt] are
+   regenerated from _resize_discr into Gen/ResizeDiscr.v; for an extension
+   nl = offset, nr = n_new - n - offset.) *)
 Theorem range_covers_enlarged_domain :
-  forall (fixed : bool) (a : @axis R) (n_new : Z) (off : option Z),
+  forall (a : @axis R) (n_new : Z) (off : option Z),
   axis_valid a -> (1 <= n_new)%Z ->
   (a_bl a = true -> (2 <= n_new)%Z) -> (a_br a = true -> (2 <= n_new)%Z) ->
-  let r := resize_axis fixed a n_new off (a_bl a) (a_br a) in
-  let nl := fst (num_lr fixed (a_n a) n_new off) in
-  let nr := snd (num_lr fixed (a_n a) n_new off) in
+  let r := resize_axis a n_new off (a_bl a) (a_br a) in
+  let nl := fst (num_lr (a_n a) n_new off) in
+  let nr := snd (num_lr (a_n a) n_new off) in
   cell_side r = cell_side a /\
   a_min r = a_min a - IZR nl * cell_side a /\
   a_max r = a_max a + IZR nr * cell_side a /\
@@ -191,49 +191,44 @@ Print Assumptions range_covers_enlarged_domain.
 (* T1: any boundary convention for the range (discr_kwargs): same cell side, and
    the range GRID is the domain grid continued by nl / nr points. *)
 Theorem range_grid_continues_domain_grid :
-  forall (fixed : bool) (a : @axis R) (n_new : Z) (off : option Z) (bl br : bool),
+  forall (a : @axis R) (n_new : Z) (off : option Z) (bl br : bool),
   axis_valid a -> (1 <= n_new)%Z -> (bl = true -> (2 <= n_new)%Z) -> (br = true -> (2 <= n_new)%Z) ->
-  let r := resize_axis fixed a n_new off bl br in
-  let nl := fst (num_lr fixed (a_n a) n_new off) in
-  let nr := snd (num_lr fixed (a_n a) n_new off) in
+  let r := resize_axis a n_new off bl br in
+  let nl := fst (num_lr (a_n a) n_new off) in
+  let nr := snd (num_lr (a_n a) n_new off) in
   cell_side r = cell_side a /\
   gmin r = gmin a - IZR nl * cell_side a /\
   gmax r = gmax a + IZR nr * cell_side a.
 Proof. exact resize_axis_grid. Qed.
 Print Assumptions range_grid_continues_domain_grid.
 
-(* T1: _offset_from_spaces recovers |nl| (hence the offset of an extension). *)
+(* T1: _offset_from_spaces (regenerated [offset_float]: signed shift, negated when the
+   range is larger) recovers the cells added on the left of an extension resp. removed
+   on the left of a restriction. *)
 Theorem offset_from_spaces_recovers :
-  forall (fixed : bool) (a : @axis R) (n_new : Z) (off : option Z) (bl br : bool),
+  forall (a : @axis R) (n_new : Z) (off : option Z) (bl br : bool),
   axis_valid a -> (1 <= n_new)%Z -> (bl = true -> (2 <= n_new)%Z) -> (br = true -> (2 <= n_new)%Z) ->
   0 < cell_side a ->
-  offset_float a (resize_axis fixed a n_new off bl br)
-  = Rabs (IZR (fst (num_lr fixed (a_n a) n_new off))).
+  offset_float_ax a (resize_axis a n_new off bl br)
+  = IZR (let nl := fst (num_lr (a_n a) n_new off) in if (a_n a <? n_new)%Z then nl else (- nl)%Z).
 Proof. exact offset_float_resize. Qed.
 Print Assumptions offset_from_spaces_recovers.
 
-(* FULL STATEMENT, FALSE of the code as it stands (finding
-   range-restrict-explicit-offset):  "a restricting operator built with
-   ran_shp and an explicit offset o has the sub-interval starting o cells
-   inside the domain as its range".  The code uses num_l = +o also when
-   shrinking, so the range starts o cells to the LEFT of the domain:
-     ResizingOperator(uniform_discr(0, 1, 10), ran_shp=(6,), offset=2).range
-     is uniform_discr(-0.2, 0.4, 6), not uniform_discr(0.2, 0.8, 6). *)
-Theorem range_restrict_explicit_offset_refuted :
-  exists (a : @axis R) n_new o, axis_valid a /\ (0 < o)%Z /\ (o + n_new <= a_n a)%Z /\
-    a_min (resize_axis false a n_new (Some o) (a_bl a) (a_br a)) < a_min a.
-Proof. exact range_restrict_offset_refuted. Qed.
-(* ... and what holds with the repaired sign convention (proposed fix) *)
-Theorem range_restrict_explicit_offset_partial :
+(* T1: a restricting operator built with ran_shp and an explicit offset o has the
+   sub-interval starting o cells inside the domain as its range, same cell side.
+   (Was finding range-restrict-explicit-offset: the code used num_l = +o also when
+   shrinking; repaired by 62efc7f.  The decision tree is regenerated from the source,
+   so re-introducing the old convention breaks this proof.) *)
+Theorem range_restrict_explicit_offset :
   forall (a : @axis R) (n_new o : Z),
   axis_valid a -> (1 <= n_new < a_n a)%Z ->
   (a_bl a = true -> (2 <= n_new)%Z) -> (a_br a = true -> (2 <= n_new)%Z) ->
-  let r := resize_axis true a n_new (Some o) (a_bl a) (a_br a) in
+  let r := resize_axis a n_new (Some o) (a_bl a) (a_br a) in
   cell_side r = cell_side a /\
   a_min r = a_min a + IZR o * cell_side a /\
   a_max r = a_max a - IZR (a_n a - n_new - o) * cell_side a.
-Proof. exact range_restrict_offset_fixed. Qed.
-Print Assumptions range_restrict_explicit_offset_partial.
+Proof. exact range_restrict_offset. Qed.
+Print Assumptions range_restrict_explicit_offset.
 
 (* non-vacuity: the side conditions hold e.g. for 3 -> 7 with offset 2 in every mode,
    5 -> 2 with offset 3, and periodic padding as long as the array itself *)
